@@ -77,5 +77,8 @@ func (t *Timer) Unset() error {
 
 func (t *Timer) Close() error {
 	_ = t.Unset()
+	// Unset leaves the interest in place if it could not stop the kernel timer.
+	// The descriptor goes away now, so make sure nothing stays armed or counted.
+	_ = t.poller.Del(&t.slot)
 	return syscall.Close(t.fd)
 }
